@@ -93,6 +93,7 @@ pub struct RefStats {
     pub wide_signals: usize,
     pub div_ops: usize,
     pub hazards_reached: Vec<String>,
+    pub row_level_errors: usize,
     pub steps: usize,
 }
 
@@ -113,6 +114,8 @@ pub struct RefTrace {
     pub input_sigs: Vec<usize>,
     pub draws_left: usize,
     pub n_cfg: usize,
+    /// vars() prescribed after row-level error items (item index -> variables)
+    pub err_vars: BTreeMap<usize, BTreeMap<String, i64>>,
 }
 
 #[derive(Clone, Debug, Serialize)]
@@ -133,6 +136,10 @@ pub struct RefOpts {
     pub max_steps: usize,
     /// Draw log recorded from the real run (hook); None = program must not use random
     pub draws: Option<Vec<Draw>>,
+    /// Row-level errors (the driver failed the row's call, or a virtual signal of the row could
+    /// not be evaluated) consume the row and the iteration goes on. If false the history ends
+    /// at the first error item of any kind.
+    pub continue_after_row_errors: bool,
 }
 
 impl Default for RefOpts {
@@ -141,6 +148,7 @@ impl Default for RefOpts {
             max_rows: 400,
             max_steps: 6000,
             draws: None,
+            continue_after_row_errors: true,
         }
     }
 }
@@ -184,6 +192,7 @@ struct Interp<'a> {
     prev_read: HashMap<String, OutVal>,
     loop_just_ended: bool,
     in_control: bool,
+    err_vars: BTreeMap<usize, BTreeMap<String, i64>>,
 }
 
 pub fn wrapping_eval_bin(op: BinOp, l: i64, r: i64) -> Result<i64, RefErr> {
@@ -492,7 +501,7 @@ impl<'a> Interp<'a> {
         let call = self.calls.len();
         let ans = self.device_call(checked, inputs.clone());
         let outs = match ans {
-            DevAnswer::Err(nonce) => return Err(Stop::Err(RefErr::Driver { nonce })),
+            DevAnswer::Err(nonce) => return self.row_level_error(RefErr::Driver { nonce }, vars),
             DevAnswer::Outputs(o) => o,
         };
         if !checked {
@@ -558,7 +567,10 @@ impl<'a> Interp<'a> {
                     self.stats.virtual_var_clash += 1;
                 }
                 let _ = name;
-                OutVal::V(self.eval(expr, Some(&answers)).map_err(Stop::Err)?)
+                match self.eval(expr, Some(&answers)) {
+                    Ok(v) => OutVal::V(v),
+                    Err(e) => return self.row_level_error(e, vars),
+                }
             };
             outputs.push(ov);
         }
@@ -573,6 +585,20 @@ impl<'a> Interp<'a> {
             depth,
             exp_index,
         }));
+        Ok(())
+    }
+
+    /// The row's device call was issued but the row cannot be delivered: error item, row consumed.
+    fn row_level_error(&mut self, e: RefErr, vars: &BTreeMap<String, i64>) -> Result<(), Stop> {
+        if !self.opts.continue_after_row_errors {
+            return Err(Stop::Err(e));
+        }
+        if e.is_hazard() {
+            self.stats.hazards_reached.push(format!("{e:?}"));
+        }
+        self.err_vars.insert(self.items.len(), vars.clone());
+        self.items.push(RefItem::Err(e));
+        self.stats.row_level_errors += 1;
         Ok(())
     }
 
@@ -757,6 +783,7 @@ pub fn run(p: &Program, sigs: &[Sig], script: &Script, opts: RefOpts) -> RefOutc
         prev_read: HashMap::new(),
         loop_just_ended: false,
         in_control: false,
+        err_vars: BTreeMap::new(),
     };
     let _ = it.header;
     it.stats.wide_signals = sigs.iter().filter(|s| s.bits >= 63).count();
@@ -825,5 +852,6 @@ pub fn run(p: &Program, sigs: &[Sig], script: &Script, opts: RefOpts) -> RefOutc
         input_sigs,
         draws_left,
         n_cfg,
+        err_vars: it.err_vars,
     }))
 }
